@@ -93,7 +93,11 @@ def judge(kind, flag, r, sigma, gamma, u, got, label, info):
     # is fixed by C10/C03, not by this statement ("inside" / "outside" the core) - not judged here
     judged = np.ones(len(r), dtype=bool)
     if sigma is not None:
-        judged = ~((np.abs(np.asarray(r, dtype=float) - sigma) < 1e-6) & (np.asarray(r, dtype=float) != sigma))
+        rr = np.asarray(r, dtype=float)
+        spacing = float(np.min(np.abs(np.diff(rr)))) if len(rr) > 1 else float(abs(rr[0]))
+        # "noise" is relative to the grid: a millionth of the spacing (an absolute 1e-6 would swallow every point of a grid given
+        # in metres)
+        judged = ~((np.abs(rr - sigma) < 1e-6 * spacing) & (rr != sigma))
     # ---- hard-core branch: bitwise -1 - gamma
     bad_core = judged & is_core & ~(got == core)
     if bad_core.any():
@@ -323,7 +327,10 @@ def weak_coupling(ctx, info):
 
 def concretisations(thorough):
     cs = [Concretisation('dyadic', '0.5', 1.0, 1.0, 1e6, 'literal'),
-          Concretisation('tenth', '0.1', 1.0, 1.0, 1e6, 'literal')]
+          Concretisation('tenth', '0.1', 1.0, 1.0, 1e6, 'literal'),
+          # lengths in metres (sigma ~ 1e-9) and a spacing with seven decimals: "for all sigma relative to the grid"
+          Concretisation('metres', '1.25e-10', 1.0, 1.0, 1e6, 'computed'),
+          Concretisation('seven.decimals', '0.1000003', 1.0, 1.0, 1e6, 'computed')]
     if thorough:
         cs += [Concretisation('0.05.computed', '0.05', 1.0, 1.0, 1e6, 'computed'),
                Concretisation('0.075', '0.075', 1.0, 1.0, 1e6, 'literal'),
